@@ -2271,16 +2271,26 @@ class Protocol(utils.EventEmitter):
                 self.receive_command_state.transaction_label != transaction_label
                 or self.receive_command_state.command_type != command.ctype
             ):
-                # We're in the middle of some other PDU
+                # We're in the middle of some other PDU, which will never be completed
+                # now: drop it, and handle this one as the start of a new exchange
+                # (dropping this one too would leave a well-formed command unanswered).
                 logger.warning("received interleaved PDU, resetting state")
                 self.command_pdu_assembler.reset()
-                self.receive_command_state = None
-                return
+                self.receive_command_state = self.ReceiveCommandState(
+                    transaction_label=transaction_label, command_type=command.ctype
+                )
             else:
                 self.receive_command_state.command_type = command.ctype
                 self.receive_command_state.transaction_label = transaction_label
 
-            self.command_pdu_assembler.on_pdu(command.vendor_dependent_data)
+            try:
+                self.command_pdu_assembler.on_pdu(command.vendor_dependent_data)
+            finally:
+                # Unless the assembler is waiting for the rest of a fragmented PDU, the
+                # exchange is over (completed, rejected or malformed): forget its label,
+                # or the next command would be taken for an interleaved one and dropped.
+                if self.command_pdu_assembler.pdu_id is None:
+                    self.receive_command_state = None
             return
 
         if isinstance(command, avc.PassThroughCommandFrame):
@@ -2342,16 +2352,24 @@ class Protocol(utils.EventEmitter):
                 self.receive_response_state.transaction_label != transaction_label
                 or self.receive_response_state.response_code != response.response
             ):
-                # We're in the middle of some other PDU
+                # We're in the middle of some other PDU, which will never be completed
+                # now: drop it, and handle this one as the start of a new exchange.
                 logger.warning("received interleaved PDU, resetting state")
                 self.response_pdu_assembler.reset()
-                self.receive_response_state = None
-                return
+                self.receive_response_state = self.ReceiveResponseState(
+                    transaction_label=transaction_label, response_code=response.response
+                )
             else:
                 self.receive_response_state.response_code = response.response
                 self.receive_response_state.transaction_label = transaction_label
 
-            self.response_pdu_assembler.on_pdu(response.vendor_dependent_data)
+            try:
+                self.response_pdu_assembler.on_pdu(response.vendor_dependent_data)
+            finally:
+                # See the command side: do not stay "in the middle" of a PDU that the
+                # assembler has dropped.
+                if self.response_pdu_assembler.pdu_id is None:
+                    self.receive_response_state = None
             return
 
         if isinstance(response, avc.PassThroughResponseFrame):
